@@ -121,8 +121,12 @@ def random_transfer(
         else:
             raise TypeError(f"Ballot {ballot} has no ranking.")
 
+    # ballots with no further choice cannot be transferred, so the winner may have fewer
+    # transferable ballots than surplus
+    transferable_ballots = [b for b in winner_ballots if b.ranking]
     surplus_ballots = random.sample(
-        [b for b in winner_ballots if b.ranking], int(fpv) - threshold
+        transferable_ballots,
+        min(int(fpv) - threshold, len(transferable_ballots)),
     )
     updated_ballots += surplus_ballots
 
